@@ -11,6 +11,7 @@ import KalignModel.Driver.PipelineFile
 import KalignModel.Driver.Cli
 import KalignModel.Driver.F32
 import KalignModel.Driver.TreeSoft
+import KalignModel.Driver.PipelineFileSoft
 /-!
 Line-protocol driver: one operation per input line, one result line per operation.
 Only executable model definitions are imported here (no `Props`, no Mathlib), so a failing proof
@@ -18,7 +19,7 @@ never prevents the model from running.  Each slice of the model contributes an `
 -/
 namespace Kalign.Driver
 
-def tables : OpTable := weaveOps ++ paramOps ++ dpOps ++ ioOps ++ miscOps ++ bpmOps ++ kmeansOps ++ pipelineOps ++ pipeFileOps ++ cliOps ++ f32Ops ++ treeSoftOps
+def tables : OpTable := weaveOps ++ paramOps ++ dpOps ++ ioOps ++ miscOps ++ bpmOps ++ kmeansOps ++ pipelineOps ++ pipeFileOps ++ cliOps ++ f32Ops ++ treeSoftOps ++ pipeFileSoftOps
 
 def step (line : String) : String :=
   match (line.trimAscii.toString.splitOn " ").filter (· ≠ "") with
